@@ -59,3 +59,13 @@ func (p *Pipeline) VerifSetPoolWakeupInterval(d time.Duration) {
 		pool.wakeupInterval = d
 	}
 }
+
+// VerifStreamerLoad returns the number of charged (waiting for a processor)
+// streams, the number of processors and the number of processors that are
+// working on a stream.
+func (p *Pipeline) VerifStreamerLoad() (charged int, procs, active int32) {
+	p.streamer.chargedMu.Lock()
+	charged = len(p.streamer.charged)
+	p.streamer.chargedMu.Unlock()
+	return charged, p.procCount.Load(), p.activeProcs.Load()
+}
